@@ -1,7 +1,7 @@
 (* Proofs/Network.v — the three parallel arrays of the ChargingNetwork model refine the paper
    book-keeping of live constraints (`ghost`), for every operation sequence.  Any coefficient type. *)
 From Coq Require Import List Bool Arith Lia ZArith QArith String Sorted.
-From ACN Require Import Base.Num Base.ListX Model.Current Model.Network Proofs.Current.
+From ACN Require Import Base.Num Base.ListX Gen.C12Shape Model.Current Model.Network Proofs.Current.
 Import ListNotations.
 Open Scope nat_scope.
 
@@ -215,6 +215,22 @@ Section NetFacts.
   Lemma rel0 : rel (net0 (A := A)) (ghost0 (A := A)).
   Proof. unfold rel; simpl. repeat split; auto. constructor. Qed.
 
+  Lemma col_pos_smem : forall s l,
+    smem s l = match col_pos s l with Some _ => true | None => false end.
+  Proof.
+    intros s l. induction l as [|c l IH]; simpl; auto.
+    destruct (Nat.eqb s c); simpl; auto. rewrite IH. destruct (col_pos s l); reflexivity.
+  Qed.
+
+  Lemma col_pos_lt : forall s l i, col_pos s l = Some i -> i < List.length l /\ nth_error l i = Some s.
+  Proof.
+    intros s l. induction l as [|c l IH]; simpl; intros i H; try discriminate.
+    destruct (Nat.eqb s c) eqn:E.
+    - inversion H; subst. apply Nat.eqb_eq in E. subst. simpl. split; [lia | reflexivity].
+    - destruct (col_pos s l) as [k|]; try discriminate. inversion H; subst.
+      destruct (IH k eq_refl) as [H1 H2]. simpl. split; [lia | exact H2].
+  Qed.
+
   Lemma register_rel : forall s v ph n g, rel n g ->
     rel (snd (register_evse s v ph n)) (gstep (ORegister s v ph) g) /\
     fst (register_evse s v ph n) = spec_err (ORegister s v ph) g.
@@ -223,12 +239,19 @@ Section NetFacts.
     unfold register_evse, gstep, spec_err. rewrite Hm.
     destruct (g_ever g) eqn:Ev; simpl.
     - split; auto. unfold rel. rewrite Ev. repeat split; auto.
-    - split; auto. specialize (He eq_refl). unfold rel; simpl. rewrite Hs.
-      split; [reflexivity|]. split.
-      { destruct (smem s (g_stations g)) eqn:E; auto.
-        apply NoDup_app_single; auto. intro Hin. apply smem_In in Hin. congruence. }
-      split; [reflexivity|]. split; [rewrite Hl, He; reflexivity|].
-      split; [rewrite Hc, He; reflexivity|]. intros _. exact He.
+    - specialize (He eq_refl).
+      assert (Hsm : smem s (g_stations g) = match col_pos s (stations n) with Some _ => true | None => false end)
+        by (rewrite <- Hs; apply col_pos_smem).
+      rewrite Hsm.
+      destruct (col_pos s (stations n)) as [i|] eqn:Ep.
+      + destruct reregistration_overwrites; simpl; (split; [|reflexivity]); unfold rel; simpl;
+          (split; [exact Hs|]); (split; [exact Hn|]); (split; [reflexivity|]);
+          (split; [exact Hl|]); (split; [exact Hc|]); intros _; exact He.
+      + simpl. split; [|reflexivity]. unfold rel; simpl. rewrite Hs.
+        split; [reflexivity|]. split.
+        { apply NoDup_app_single; auto. intro Hin. apply smem_In in Hin.
+          rewrite Hsm in Hin. discriminate. }
+        split; [reflexivity|]. split; [exact Hl|]. split; [exact Hc|]. intros _. exact He.
   Qed.
 
   Lemma add_rel : forall c l nm n g, rel n g ->
@@ -517,7 +540,8 @@ Section NetFacts.
       { apply IH. intros pre o' post E. apply (H pre o' (post ++ [o])). rewrite E, <- app_assoc. reflexivity. }
       specialize (H ops o [] eq_refl).
       destruct o; simpl in *.
-      + unfold register_evse. rewrite IH'. simpl. first [reflexivity | exact IH'].
+      + unfold register_evse. rewrite IH'. destruct (col_pos s (stations (run ops net0)));
+          [destruct reregistration_overwrites|]; simpl; first [reflexivity | exact IH'].
       + specialize (H eq_refl). unfold Network.add_constraint in *.
         destruct (existsb _ _); simpl in *; auto. congruence.
       + unfold remove_constraint. destruct (negb _); simpl; auto. rewrite IH'. reflexivity.
@@ -532,11 +556,14 @@ Section NetFacts.
                         fst (step o (run pre net0)) <> None) ->
     let n := run ops net0 in
     register_evse s v ph n =
-    (None, mkNet (if smem s (stations n) then stations n else stations n ++ [s])
-                 (volts n ++ [v]) (angles n ++ [ph]) None (mags n) (cnames n)).
+    (None, match col_pos s (stations n) with
+           | Some i => mkNet (stations n) (upd i v (volts n)) (upd i ph (angles n)) None (mags n) (cnames n)
+           | None => mkNet (stations n ++ [s]) (volts n ++ [v]) (angles n ++ [ph]) None (mags n) (cnames n)
+           end).
   Proof.
     intros ops s v ph H n. subst n. unfold register_evse.
-    rewrite (matrix_none_until_accepted ops H). reflexivity.
+    rewrite (matrix_none_until_accepted ops H).
+    destruct (col_pos s (stations (run ops net0))); reflexivity.
   Qed.
 
   (* registration order: the columns are the distinct stations in order of first registration *)
@@ -554,23 +581,102 @@ Section NetFacts.
         * destruct (smem s seen || smem s l); reflexivity.
   Qed.
 
+  Lemma last_reg_app : forall regs p s,
+    last_reg (regs ++ [p]) s =
+    if Nat.eqb s (fst (fst p)) then Some (snd (fst p), snd p) else last_reg regs s.
+  Proof.
+    induction regs as [|a regs IH]; intros p s; simpl.
+    - destruct (Nat.eqb s (fst (fst p))); reflexivity.
+    - rewrite IH. destruct (Nat.eqb s (fst (fst p))); reflexivity.
+  Qed.
+
+  Lemma upd_map_at : forall {B} (f f' : station -> B) sts s i,
+    NoDup sts -> col_pos s sts = Some i ->
+    (forall s', s' <> s -> f' s' = f s') ->
+    upd i (f' s) (map f sts) = map f' sts.
+  Proof.
+    intros B f f' sts s. induction sts as [|c sts IH]; intros i Hn Hp Hf; simpl in *; try discriminate.
+    inversion Hn as [|? ? Hc Hn']; subst.
+    destruct (Nat.eqb s c) eqn:E.
+    - inversion Hp; subst. apply Nat.eqb_eq in E. subst c. simpl. f_equal.
+      apply map_ext_in. intros s' Hs'. symmetry. apply Hf. intro; subst. contradiction.
+    - destruct (col_pos s sts) as [k|] eqn:Ek; try discriminate. inversion Hp; subst.
+      simpl. f_equal.
+      + symmetry. apply Hf. intro; subst. rewrite Nat.eqb_refl in E. discriminate.
+      + apply IH; auto.
+  Qed.
+
+  (* registration order: the columns are the distinct stations in order of FIRST registration; voltage and angle
+     of a station are those of its LAST registration; the two arrays stay aligned with the station list *)
   Theorem registration_order : forall regs,
     let n := run (map reg_op regs) net0 in
     stations n = dedup_first [] (map (fun p => fst (fst p)) regs) /\
-    volts n = map (fun p => snd (fst p)) regs /\
-    angles n = map (fun p => snd p) regs /\
+    volts n = map (reg_volt regs) (stations n) /\
+    angles n = map (reg_angle regs) (stations n) /\
     cmat n = None /\ mags n = [] /\ cnames n = [].
   Proof.
     induction regs as [|p regs IH] using rev_ind; simpl.
     - repeat split; reflexivity.
     - rewrite !map_app, run_app. simpl.
       destruct IH as (Hs & Hv & Ha & Hm & Hl & Hc).
-      unfold register_evse. rewrite Hm. simpl.
-      rewrite Hs, Hv, Ha. repeat split; auto.
-      rewrite dedup_first_snoc. simpl.
+      destruct (aligned (map reg_op regs)) as (_ & Hnd & _).
+      set (n := run (map reg_op regs) net0) in *.
       assert (E : forall l s, smem s (dedup_first [] l) = smem s l).
       { intros. rewrite (smem_dedup_first s l []). simpl. apply andb_true_r. }
-      rewrite E. destruct (smem (fst (fst p)) (map (fun p0 => fst (fst p0)) regs)); reflexivity.
+      unfold register_evse. rewrite Hm.
+      pose proof (col_pos_smem (fst (fst p)) (stations n)) as Hsm.
+      rewrite Hs, E in Hsm at 1.
+      unfold reg_volt, reg_angle.
+      destruct (col_pos (fst (fst p)) (stations n)) as [i|] eqn:Ep.
+      + change reregistration_overwrites with true. simpl.
+        split; [|split; [|split; [|repeat split; auto]]].
+        * rewrite dedup_first_snoc. simpl. rewrite Hsm. exact Hs.
+        * rewrite Hv. unfold reg_volt.
+          rewrite <- (upd_map_at (fun s => match last_reg regs s with Some x => fst x | None => 0%Q end)
+                        (fun s => match last_reg (regs ++ [p]) s with Some x => fst x | None => 0%Q end)
+                        (stations n) (fst (fst p)) i Hnd Ep).
+          -- rewrite last_reg_app, Nat.eqb_refl. reflexivity.
+          -- intros s' Hne. rewrite last_reg_app.
+             destruct (Nat.eqb s' (fst (fst p))) eqn:E'; auto. apply Nat.eqb_eq in E'. contradiction.
+        * rewrite Ha. unfold reg_angle.
+          rewrite <- (upd_map_at (fun s => match last_reg regs s with Some x => snd x | None => 0%Q end)
+                        (fun s => match last_reg (regs ++ [p]) s with Some x => snd x | None => 0%Q end)
+                        (stations n) (fst (fst p)) i Hnd Ep).
+          -- rewrite last_reg_app, Nat.eqb_refl. reflexivity.
+          -- intros s' Hne. rewrite last_reg_app.
+             destruct (Nat.eqb s' (fst (fst p))) eqn:E'; auto. apply Nat.eqb_eq in E'. contradiction.
+      + simpl.
+        assert (Hnew : forall (part : Q * Q -> Q) s', In s' (stations n) ->
+                  match last_reg (regs ++ [p]) s' with Some x => part x | None => 0%Q end =
+                  match last_reg regs s' with Some x => part x | None => 0%Q end).
+        { intros part s' Hin. rewrite last_reg_app.
+          destruct (Nat.eqb s' (fst (fst p))) eqn:E'; auto. apply Nat.eqb_eq in E'. subst s'.
+          apply smem_In in Hin. rewrite (col_pos_smem _ (stations n)), Ep in Hin. discriminate. }
+        split; [|split; [|split; [|repeat split; auto]]].
+        * rewrite dedup_first_snoc. simpl. rewrite Hsm, Hs. reflexivity.
+        * rewrite map_app. simpl. rewrite last_reg_app, Nat.eqb_refl. simpl. f_equal.
+          rewrite Hv. unfold reg_volt. apply map_ext_in. intros s' Hin. symmetry. apply (Hnew fst). exact Hin.
+        * rewrite map_app. simpl. rewrite last_reg_app, Nat.eqb_refl. simpl. f_equal.
+          rewrite Ha. unfold reg_angle. apply map_ext_in. intros s' Hin. symmetry. apply (Hnew snd). exact Hin.
+  Qed.
+
+  (* the voltage and angle arrays have one entry per station on EVERY reachable network *)
+  Theorem arrays_aligned : forall ops,
+    let n := run ops net0 in
+    List.length (volts n) = List.length (stations n) /\ List.length (angles n) = List.length (stations n).
+  Proof.
+    intros ops. induction ops as [|o ops IH] using rev_ind; simpl.
+    - split; reflexivity.
+    - rewrite run_app. simpl. set (n := run ops net0) in *. destruct IH as [Hv Ha].
+      destruct o; simpl.
+      + unfold register_evse. destruct (cmat n); simpl; auto.
+        destruct (col_pos s (stations n)) as [i|]; simpl.
+        * change reregistration_overwrites with true. simpl. rewrite !upd_length. auto.
+        * rewrite !app_length. simpl. lia.
+      + unfold Network.add_constraint. destruct (existsb _ _); simpl; auto.
+      + unfold remove_constraint. destruct (negb _); simpl; auto.
+      + unfold Network.update_constraint. destruct (negb (nmem name (cnames n))) eqn:E; simpl; auto.
+        unfold Network.add_constraint. destruct (existsb _ _); simpl; unfold remove_constraint; rewrite E; simpl; auto.
   Qed.
 
   (* update_constraint is remove + add: when the new Current names an unregistered station the
